@@ -116,6 +116,15 @@ func runC20(c *Ctx, r *Report) {
 				}
 				bs := backSliceOpt(res, nil, true)
 				dep := bs[sc]
+				if !dep {
+					// a constant answer (e.g. `return false, nil` under `if value == nil`) depends on the store
+					// through the branch that selects it
+					for _, cnd := range controlConds(b) {
+						if backSliceOpt(cnd, nil, true)[sc] {
+							dep = true
+						}
+					}
+				}
 				r.Check(dep, "R-C20.1", key, ret.Pos(),
 					"the value returned after the datastore lookup depends on the datastore's answer",
 					"on the cache-miss path the method consults the datastore but the returned value depends only on the (missed) cache lookup: a key present in the datastore but not in this keystore's cache (new keystore over the same store, or after eviction) is reported absent")
@@ -267,7 +276,7 @@ func runC20(c *Ctx, r *Report) {
 	}
 
 	// R-C20.2
-	ck := p.Func("keystore", "Keystore", "CreateKey")
+	ck := p.FuncI("keystore", "Keystore", "CreateKey")
 	putErr := map[types.Object]bool{}
 	walkNoLit(ck.Body, func(n ast.Node) bool {
 		as, ok := n.(*ast.AssignStmt)
@@ -427,7 +436,7 @@ func runC20(c *Ctx, r *Report) {
 	r.Floor("R-C20.3", "CreateKey call sites in identityprovider", nCreate, 1)
 
 	// R-C20.4
-	ci := p.Func("identityprovider", "Identities", "CreateIdentity")
+	ci := p.FuncI("identityprovider", "Identities", "CreateIdentity")
 	var signCall *ast.CallExpr
 	var sigObj types.Object
 	walkNoLit(ci.Body, func(n ast.Node) bool {
